@@ -8,3 +8,6 @@ func VerifNewView() *ClusterView { return newClusterView() }
 func VerifNewNodeState(id, clusterName, address string) *NodeState {
 	return newNodeState(id, clusterName, address)
 }
+
+// VerifNodeView exposes a node's current view and own state (read without scheduling points).
+func VerifNodeView(a *NodeActor) (*ClusterView, *NodeState) { return a.clusterView, a.nodeState }
